@@ -62,6 +62,15 @@ def guard_table(prog, res, q, spec, classes):
     bad = {}
     undecided = {}
     per_refusal = {r['name']: 0 for r in spec['refusals']}
+
+    def extend(model):
+        """the contract describes the first element of each argument list; a call "that satisfies the
+        documented preconditions" has every further element shaped like the first"""
+        for k, v in list(model.items()):
+            if isinstance(k, str) and '[0]' in k:
+                for j in (1, 2):
+                    model.setdefault(k.replace('[0]', '[%d]' % j), v)
+        return model
     # quantities the guards read that the documented contract does not name: state atoms are
     # treated as free variables over a small domain (the guard must give the documented answer
     # whatever they hold); anything else leaves the table undecided
@@ -72,14 +81,14 @@ def guard_table(prog, res, q, spec, classes):
             env = dict(zip(names, vals))
             model = {spec['atoms'][n]['path']: v for n, v in env.items()}
             model.update({k: v[0] for k, v in extra.items()})
-            events, end, undec = a7.walk(f, model, stop=stop)
+            events, end, undec = a7.walk(f, extend(model), stop=stop)
             for cond, unk in undec:
                 for atom, tc in unk.items():
                     if atom not in extra and tc == 'b' and re.match(r'^\(anonymous namespace\)::\w+\(', atom):
                         # a file-local predicate the model cannot evaluate: free boolean
                         extra[atom] = [False, True]
                         found = True
-                    if atom not in extra and re.match(r'^(this|arg\d+)[.\[]', atom) and tc in ('u', 's', 'f', 'b'):
+                    if atom not in extra and re.match(r'^(this|arg\d+)[.\[]', atom) and tc in ('u', 's', 'f', 'b') and 'local:' not in atom:
                         extra[atom] = [0, 1, 2] if tc in ('u', 's') else ([0.0, 0.5] if tc == 'f' else [False, True])
                         found = True
             if found:
@@ -94,7 +103,7 @@ def guard_table(prog, res, q, spec, classes):
         model.update(xenv)
         reasons = [r for r in spec['refusals'] if eval(r['when'], {}, env)]
         free = eval(spec.get('free', 'False'), {}, env)
-        events, end, undec = a7.walk(f, model, stop=stop)
+        events, end, undec = a7.walk(f, extend(model), stop=stop)
         rows += 1
         if end.startswith('undecided'):
             nid = int(end.split('@')[1])
@@ -255,6 +264,18 @@ def duplicate_rule(prog, res, q, ptype0, group, name_re):
             continue
         m = re.match(r'^!\(\(bool\)(.*)\.compare\((.*)\)\)$', c) or re.match(r'^\((.*) == (.*)\)$', c) or re.match(r'^std::operator==\((.*),(.*)\)$', c)
         if not m:
+            # a file-local membership predicate  h(L, name) { return std::find(L.begin(), L.end(), name) != L.end(); }
+            cn = f.nodes[f.strip(n['cond'], 'all')]
+            if cn['k'] == 'CallExpr' and cn.get('callee', {}).get('inrepo'):
+                hf = prog.funcs.get(cn['callee']['usr'])
+                if hf is not None and hf.body is not None and (hf.rec.get('internal') or '(anonymous namespace)' in hf.qname):
+                    Rh = Renderer(hf)
+                    rets = [Rh.render(r_['ch'][0]) for r_ in hf.all_nodes({'ReturnStmt'}) if r_['ch']]
+                    hm = re.match(r'^(?:__gnu_cxx::|std::)?operator!=\(std::find\(arg(\d)\.begin\(\),arg(\d)\.end\(\),arg(\d)\),arg(\d)\.end\(\)\)$', rets[0]) if len(rets) == 1 else None
+                    if hm and hm.group(1) == hm.group(2) == hm.group(4) and len(f.call_args(cn)) > max(int(hm.group(1)), int(hm.group(3))):
+                        La = R.render(f.call_args(cn)[int(hm.group(1))])
+                        Na = R.render(f.call_args(cn)[int(hm.group(3))])
+                        c = 'operator!=(std::find(%s.begin(),%s.end(),%s),%s.end())' % (La, La, Na, La)
             # std::find(L.begin(), L.end(), name) != L.end()   with L the label list (or an unmodified copy of it)
             fm = re.match(r'^(?:__gnu_cxx::|std::)?operator!=\(std::find\((.*)\.begin\(\),(.*)\.end\(\),(.*)\),(.*)\.end\(\)\)$', c)
             if fm and fm.group(1) == fm.group(2) == fm.group(4):
